@@ -14,6 +14,7 @@ Stage 1 (this file, requirement level): parts (a) and (e) of the statement.
 Stage 2 (scheduler level: (b) instance-type subset / minValues floors, (c) requests, (d) labels / taints / hash, and (a),(e)
 on NodeClaims created by Provisioner.CreateNodeClaims) is added by the scheduling module; append it to STAGES."""
 from checks import requirements_common as rc
+from checks import c13_sched_stage
 
 BOUND = set(rc.BOUND_OPS)
 
@@ -30,7 +31,7 @@ def stage_requirements(run):
     rc.pipeline(run, _note)
 
 
-STAGES = [stage_requirements]
+STAGES = [stage_requirements, c13_sched_stage.stage]
 
 
 def check(run):
@@ -40,8 +41,15 @@ def check(run):
                 "accepts the pool), re-parsed, and Any() is drawn 8 times; non-trivial = a bound is involved or ToNodeClaim ran")
     for st in STAGES:
         st(run)
-    run.assumptions.append("stage 1 covers parts (a) and (e) at the requirement / template level; (b)-(d) are decided by the scheduling stage")
+    run.assumptions.append("stage 1 covers parts (a) and (e) at the requirement / template level; stage 2 (checks/c13_sched_stage.py, "
+                           "Weights_Trace.tla) decides (b)-(d) on NodeClaims created by the real Provisioner.CreateNodeClaims")
 
 
 def replay(run, path):
-    rc.replay_case(run, path)
+    import json as _json
+    body = _json.load(open(path))
+    if str(body.get("guard", "")).startswith(("G_C13_TypesSubsetMinValues", "G_C13_Requests", "G_C13_Template")):
+        cfg = next((e for e in body.get("trace", []) if e.get("e") == "Cfg"), None)
+        c13_sched_stage.replay_stage(run, cfg)
+    else:
+        rc.replay_case(run, path)
